@@ -90,6 +90,8 @@ class C06(Prop):
             "prelude": gen.prelude(),
             # a second live connection in the same process (interleaved with this one, or blocked in a send)
             "companion": gen.companion(),
+            # connect() options that must not matter here
+            "copts_noise": gen.copts_noise(("poll", "ping_timeout", "close_timeout",)),
         })
 
     def enumerations(self, tier):
@@ -184,6 +186,10 @@ class C06(Prop):
         fragmented_comp = False
         damage = case.get("damage")
         ref_inflater = zlib.decompressobj(-cfg["sb"])
+        # under server_no_context_takeover a receiver MAY start every message with a fresh inflater but need not
+        # (RFC 7692 7.1.1.1): both readings agree on everything a conforming peer sends, yet can differ on damaged
+        # bytes.  ``kept_inflater`` is the reading that never drops its window.
+        kept_inflater = zlib.decompressobj(-cfg["sb"])
         dead = False           # after an expected ProtocolError nothing more is expected
         lenient_from = None    # index of the first expected event at/after a damaged message
         s_index = 0
@@ -216,14 +222,21 @@ class C06(Prop):
                 labels.add("damaged")
                 lenient_from = len(expected)
                 want = self.reference_inflate(ref_inflater, body, cfg)
+                if cfg["snct"] and self.reference_inflate(kept_inflater, body, cfg) != want:
+                    want = "unspecified"       # the two legal readings disagree about these damaged bytes
             elif comp and not dead:
                 got = self.reference_inflate(ref_inflater, body, cfg)
+                alt = self.reference_inflate(kept_inflater, body, cfg)
                 if "damaged" in labels:
                     want = got       # history differs from the compressor's after a damaged message
+                    if cfg["snct"] and alt != got:
+                        want = "unspecified"
                 elif got != raw:
                     raise boot.HarnessError("reference peer cannot inflate its own output")
             if cfg["snct"] or (comp and ref_inflater.eof):
                 ref_inflater = zlib.decompressobj(-cfg["sb"])
+            if comp and (kept_inflater.eof or kept_inflater.unused_data):
+                kept_inflater = zlib.decompressobj(-cfg["sb"])
             s_index += 1
             cuts = sorted(min(max(c, 0), len(body)) for c in step["frag"])
             pieces, last = [], 0
